@@ -38,6 +38,8 @@ inductive Action where
   | fmtUint                        -- strconv.FormatUint(uint64(tv), 10), unsigned arms only
   | parseFloatFinite (t : NumT)    -- ParseFloat(tv, 64) [then float32(f)]; a parse error keeps v, a non-finite result is refused with nil
   | convTrunc (t : NumT)           -- float → integer: the fraction is dropped, NaN and values whose truncation does not fit are refused with nil
+  | timeOfIntChk                   -- `timeOfInt` for |seconds| ≤ 9223372036 (they fit nanoseconds in an int64), else err + nil
+  | timeOfFloatChk                 -- `timeOfFloat` when the truncated seconds are within that bound, else (also NaN, ±Inf) err + nil
   | convStrict (t : NumT)           -- `conv` with the result checked (range / finiteness), else err + nil: the float `CoerceIn` arms
   deriving DecidableEq, Repr, Inhabited
 
@@ -224,6 +226,17 @@ def applyAction (ext : Ext F) (a : Action) (v : GoVal F) : GoVal F × Bool :=
   | .timeOfInt =>
     (match v with
      | .int _ n => (.time (n * 1000000000), false)
+     | _ => (v, false))
+  | .timeOfIntChk =>
+    (match v with
+     | .int _ n => if decide (-9223372036 ≤ n) && decide (n ≤ 9223372036) then (.time (n * 1000000000), false) else (.nil, true)
+     | _ => (v, false))
+  | .timeOfFloatChk =>
+    (match v with
+     | .flt _ x =>
+       (match ext.trunc x with
+        | some s => if decide (-9223372036 ≤ s) && decide (s ≤ 9223372036) then (.time (ext.timeOfFloat x), false) else (.nil, true)
+        | none => (.nil, true))
      | _ => (v, false))
   | .timeParseKeep =>
     (match v with
